@@ -38,6 +38,7 @@ func isSubresourceCreate(in ssa.Instruction, sub string) bool {
 }
 
 func runC11(c *Ctx) {
+	runC11ClaimFill(c)
 	borrow(c, "O7", "C17", "O2", "paired with ReleaseMutex", "a failed reservation step must not leave the group mutex held: the rollback of the same attempt would block forever and the request would never be reported failed")
 	borrow(c, "O6", "C17", "O5", "label patch is applied through", "rollback removes the labels it sees on the reconciler's pod object")
 
@@ -193,6 +194,48 @@ func runC11(c *Ctx) {
 		c.Check(live, "O4", "DOM", funcKey(reconcile)+": no bind for a request being deleted", instrPos(bc), "DeletionTimestamp == nil", "a BindRequest that is being deleted can still be processed")
 		c.Check(notDone, "O4", "DOM", funcKey(reconcile)+": a Succeeded request is a no-op", instrPos(bc), "Phase != Succeeded", "a request that already succeeded can be bound again")
 		c.Check(unbound, "O4", "DOM", funcKey(reconcile)+": an already bound pod is a no-op", instrPos(bc), `pod.Spec.NodeName == ""`, "a pod that is already bound can be bound again (possibly to another node)")
+		// … and for a pod that is already bound NOTHING fallible is attempted once the pod is known: every API step
+		// after the pod was fetched (node lookup, bind, delete of an invalid request) runs only for an unbound pod.
+		// Otherwise a transient fault turns "bound, nothing to do" into a reported failure of a running pod.
+		var podGet ssa.Instruction
+		for _, in := range instrsIn(reconcile, isInvokeNamed("Get")) {
+			for _, a := range in.(ssa.CallInstruction).Common().Args {
+				if mi, ok := a.(*ssa.MakeInterface); ok && strings.HasSuffix(typeKey(mi.X.Type()), "core/v1.Pod") {
+					podGet = in
+				}
+			}
+		}
+		if podGet == nil {
+			c.Undec("O4", "DOM", funcKey(reconcile)+": a bound pod is a no-op for every fallible step", reconcile.Pos(), "the fetch of the pod was not recognised")
+		} else {
+			nf := 0
+			for _, in := range instrsIn(reconcile, func(x ssa.Instruction) bool {
+				cc, ok := x.(*ssa.Call)
+				if !ok || !cc.Call.IsInvoke() || x == podGet || !dominatesInstr(podGet, x) {
+					return false
+				}
+				res := cc.Call.Signature().Results()
+				for i := 0; i < res.Len(); i++ {
+					if types.Identical(res.At(i).Type(), types.Universe.Lookup("error").Type()) {
+						return true
+					}
+				}
+				return false
+			}) {
+				nf++
+				fsAt := fx.FactsAt(in)
+				_, ub := hasFact(fsAt, func(f Fact) bool {
+					return f.Pol && f.T.Op == "bin" && f.T.Name == "==" && strings.HasSuffix(f.T.Args[0].String(), ".Spec.NodeName") && f.T.Args[1].String() == `const:""`
+				})
+				if fsAt.Bottom {
+					// the error-handling arm behind a re-assigned err: reached only through the steps checked above
+					ub = true
+				}
+				c.Check(ub, "O4", "DOM", funcKey(reconcile)+": "+in.(*ssa.Call).Call.Method.Name()+" is attempted only for an unbound pod", instrPos(in), `pod.Spec.NodeName == ""`,
+					"a fallible step ("+in.(*ssa.Call).Call.Method.Name()+") runs before the 'pod is already bound' no-op test: when it fails for a pod that is already bound (crash or lost status patch after the pods/binding call) the request is reported Failed and the running pod gets a binding-error condition")
+			}
+			c.Floor("O4", "DOM fallible steps after the pod fetch", nf, 2)
+		}
 		// the deferred status update is installed before the bind
 		okDefer := false
 		for _, b := range reconcile.Blocks {
@@ -373,4 +416,44 @@ func checkRecoverSetsErr(c *Ctx, g *ssa.Function) {
 	if n == 0 {
 		c.Viol("O4", "MPT", funcKey(g)+": a recovered panic is reported as a failed attempt", g.Pos(), "the deferred closure no longer recovers panics")
 	}
+}
+
+// C11-O8 (DOM): the binder only FILLS the allocation of a ResourceClaim, it never replaces one. A claim that is
+// already allocated is in use by a pod that is already bound (a shared claim's first consumer); writing the bind
+// request's allocation over it re-points that pod's devices (and on a real API server, where the allocation is
+// immutable, makes every attempt of this request fail after its earlier steps succeeded).
+func runC11ClaimFill(c *Ctx) {
+	p, fx := c.P, c.Fx
+	const pkgDRA = "pkg/binder/plugins/k8s-plugins/dynamicresources"
+	bind := c.Anchor("O8", pkgDRA, "dynamicResourcesPlugin", "Bind")
+	if bind == nil {
+		return
+	}
+	n := 0
+	for _, h := range p.deepFind(bind, func(in ssa.Instruction) bool {
+		st, ok := in.(*ssa.Store)
+		if !ok {
+			return false
+		}
+		fa, ok := st.Addr.(*ssa.FieldAddr)
+		if !ok {
+			return false
+		}
+		pt, ok := fa.X.Type().Underlying().(*types.Pointer)
+		if !ok {
+			return false
+		}
+		stt, ok := pt.Elem().Underlying().(*types.Struct)
+		return ok && stt.Field(fa.Field).Name() == "Allocation" && strings.HasSuffix(typeKey(pt.Elem()), "ResourceClaimStatus")
+	}, 3) {
+		n++
+		st := h.In.(*ssa.Store)
+		target := termOf(st.Addr).String()
+		d, ok := hasFact(fx.FactsAt(h.In), func(f Fact) bool {
+			return f.Pol && f.T.Op == "bin" && f.T.Name == "==" && f.T.Args[0].String() == target && f.T.Args[1].isNilConst()
+		})
+		c.Check(ok, "O8", "DOM", funcKey(h.In.Parent())+": the claim's allocation is written only when it has none", instrPos(h.In), trunc(d, 120),
+			"the DRA bind step overwrites the allocation of a ResourceClaim that is already allocated: the devices of the pod already using the claim are re-pointed to the new request's (on a real API server the status update is rejected and the bind fails after its earlier steps)")
+	}
+	c.Floor("O8", "DOM claim allocation writes", n, 1)
 }
